@@ -60,6 +60,7 @@ structure Cfg where
   etcdCompat : Bool := true
   ttl : Nat := 3600000              -- scanner TTL in model-clock units
   shuffle : Bool := false           -- the engine hands its partitions over in reversed order (harness wrapper)
+  creatorNoReeval : Bool := false   -- refutations only: the creator as it was BEFORE fix eb6d1d1 (KB.Sys `createRecheck`)
   deriving Repr
 
 structure Watcher where
@@ -258,6 +259,62 @@ def creatorCreate (c : Cfg) (st : Store) (key val : Bytes) (rev : Nat) (fs : Lis
           let (f2, fs) := nextFault fs
           let (r2, st) := doCommit c st [BOp.cas (idxKey key) (be8 rev) old, BOp.put (encode key rev) val] f2
           (r2, st, fs)
+        else (.conflict none none, st, fs)
+  | r => (r, st, fs')
+
+/-- The loop of `CreateWithTTL` since fix eb6d1d1, from the compare-and-swap numbered `attempt` on, against the
+deletion record `old` (`fuel` = compare-and-swaps left, 4 in all). After a compare-and-swap that failed its condition
+the record is read again: gone -> put-if-absent again; still a deletion below `rev` -> next round against it;
+anything else, or `attempt >= 3` -> failed condition. Sequential semantics: nothing runs between the storage calls. -/
+def creatorOverLoop (c : Cfg) (ops1 : List BOp) (key val : Bytes) (rev : Nat) :
+    Nat → Nat → Store → Bytes → List Fault → CommitRes × Store × List Fault
+  | 0, _, st, _, fs => (.conflict none none, st, fs)
+  | fuel + 1, attempt, st, old, fs =>
+    let (f2, fs') := nextFault fs
+    let (r2, st') := doCommit c st [BOp.cas (idxKey key) (be8 rev) old, BOp.put (encode key rev) val] f2
+    match r2 with
+    | .conflict i cv =>
+      -- (a fault directive is consumed only by a commit whose conditions hold: still pending here)
+      match st'.get (idxKey key) with
+      | none =>
+        let (f3, fs) := nextFault fs
+        let (r3, st3) := doCommit c st' ops1 f3
+        (r3, st3, fs)
+      | some cur =>
+        if attempt ≥ 3 then (.conflict i cv, st', fs)
+        else match parseRevision cur with
+          | none => (.conflict i cv, st', fs)
+          | some (p, tomb) =>
+            if tomb && p < rev then creatorOverLoop c ops1 key val rev fuel (attempt + 1) st' cur fs
+            else (.conflict none none, st', fs)
+    | r => (r, st', fs')
+
+/-- `naiveCreator.CreateWithTTL` as it is since fix eb6d1d1 (the compare-and-swap over a deletion record is the
+re-evaluation loop `creatorOverLoop`). Run alone it IS `creatorCreate` (`KB.CreatorLoop.creatorCreateNow_eq`: the
+first compare-and-swap is made against the record just read, so it cannot fail its condition and the loop body is
+never entered a second time); the loop matters only under interleaving - KB.Sys `Pc.createOver` / `Pc.createRecheck`. -/
+def creatorCreateNow (c : Cfg) (st : Store) (key val : Bytes) (rev : Nat) (fs : List Fault) :
+    CommitRes × Store × List Fault :=
+  let ops1 := [BOp.pine (idxKey key) (be8 rev), BOp.put (encode key rev) val]
+  let (f1, fs') := nextFault fs
+  let (r1, st) := doCommit c st ops1 f1
+  match r1 with
+  | .conflict idx cv =>
+    let oldRev? : Except CommitRes Bytes :=
+      if idx == some 0 then .ok (cv.getD [])
+      else match st.get (idxKey key) with
+        | some v => .ok v
+        | none => .error .ok
+    match oldRev? with
+    | .error _ =>
+      let (f2, fs) := nextFault fs
+      let (r2, st) := doCommit c st ops1 f2
+      (r2, st, fs)
+    | .ok old =>
+      match parseRevision old with
+      | none => (.err, st, fs)
+      | some (prevRev, tomb) =>
+        if tomb && prevRev < rev then creatorOverLoop c ops1 key val rev 4 0 st old fs
         else (.conflict none none, st, fs)
   | r => (r, st, fs')
 
